@@ -85,6 +85,8 @@ def _difference(l, r):
 
 def atom(e, truth=True):
     """Canonical (Atom, truth) of an atomic condition."""
+    if any(isinstance(x, (ast.List, ast.Dict)) for x in ast.walk(e)):
+        e = _SortDict().visit(copy.deepcopy(e))
     while isinstance(e, ast.UnaryOp) and isinstance(e.op, ast.Not):
         e = e.operand
         truth = not truth
@@ -1216,6 +1218,12 @@ def norm(text):
 
 
 class _SortDict(ast.NodeTransformer):
+    def visit_List(self, n):
+        self.generic_visit(n)
+        if n.elts and isinstance(n.ctx, ast.Load) and all(isinstance(e, ast.Constant) for e in n.elts):
+            return ast.Tuple(elts=n.elts, ctx=ast.Load())      # a literal table reads the same as list or tuple
+        return n
+
     def visit_Dict(self, n):
         self.generic_visit(n)
         if n.keys and all(isinstance(k, ast.Constant) for k in n.keys):
